@@ -812,8 +812,8 @@ def get_length_scale(
     which also returns the actual structure factor. The method
     `structure_factor_maximum` also allows for some smoothing of the radially averaged
     structure factor. If the parameter `smoothing` is set to `None` the amount of
-    smoothing is determined automatically from the typical discretization of the
-    underlying grid. For the method `droplet_detection`, additional arguments are
+    smoothing is determined automatically from the resolution of the underlying grid
+    in Fourier space. For the method `droplet_detection`, additional arguments are
     forwarded to :func:`locate_droplets`.
 
     Returns:
@@ -837,7 +837,9 @@ def get_length_scale(
         # smooth the structure factor
         smoothing = kwargs.pop("smoothing", None)
         if smoothing is None:
-            smoothing = 0.01 * scalar_field.grid.typical_discretization
+            # the smoothing width is a wave number: a small fraction of the resolution in
+            # Fourier space, i.e., of the smallest non-zero wave number
+            smoothing = 1e-3 * k_mag[1:].min()
         sf_smooth = SmoothData1D(k_mag, sf, sigma=smoothing)
 
         # find the maximum
